@@ -133,6 +133,7 @@ def parseTraceToks (toks : List String) : Option Trace :=
 /-! ### state -/
 
 structure St where
+  src : Bytes
   recs : Thunk (List Item)
   m0 : Thunk Mapper
   m1 : Thunk Mapper
@@ -144,14 +145,15 @@ def St.ofMapping (bs : Bytes) (old : St) : St :=
   let recs : Thunk (List Item) := Thunk.mk fun _ => records bs
   let ok : Thunk (List Record) := Thunk.mk fun _ => okRecs recs.get
   let written : Thunk Bytes := Thunk.mk fun _ => Cache.write ok.get
-  { recs := recs,
+  { src := bs,
+    recs := recs,
     m0 := Thunk.mk fun _ => Mapper.build ok.get false,
     m1 := Thunk.mk fun _ => Mapper.build ok.get true,
     written := written,
     wcache := Thunk.mk fun _ => Cache.parse written.get,
     buf := old.buf }
 
-def St.init : St := St.ofMapping [] ⟨Thunk.pure [], Thunk.pure ⟨[]⟩, Thunk.pure ⟨[]⟩, Thunk.pure [],
+def St.init : St := St.ofMapping [] ⟨[], Thunk.pure [], Thunk.pure ⟨[]⟩, Thunk.pure ⟨[]⟩, Thunk.pure [],
   Thunk.pure (.error .invalidHeader), .error .invalidHeader⟩
 
 /-- answer of mapper(pm=0), mapper(pm=1), cache-of-written-bytes -/
@@ -198,6 +200,12 @@ def natOpt (s : String) : Option (Option Nat) :=
 
 /-! ### one operation -/
 
+def rMeta (bs : Bytes) : String :=
+  let s := summary bs
+  "hli=" ++ (if hasLineInfo bs then "1" else "0") ++ " valid=" ++ (if isValid bs then "1" else "0")
+    ++ " comp=" ++ optS hx s.compiler ++ " ver=" ++ optS hx s.compilerVersion ++ " api="
+    ++ optS toString s.minApi ++ " cc=" ++ toString s.classCount ++ " mc=" ++ toString s.methodCount
+
 def step (st : St) (line : String) : St × String :=
   let toks := line.splitOn " "
   let bad := (st, "bad-op")
@@ -213,12 +221,20 @@ def step (st : St) (line : String) : St × String :=
     | none => bad
   | ["META", h] =>
     match unhex h with
-    | some bs =>
-      let s := summary bs
-      (st, "hli=" ++ (if hasLineInfo bs then "1" else "0") ++ " valid=" ++ (if isValid bs then "1" else "0")
-        ++ " comp=" ++ optS hx s.compiler ++ " ver=" ++ optS hx s.compilerVersion ++ " api="
-        ++ optS toString s.minApi ++ " cc=" ++ toString s.classCount ++ " mc=" ++ toString s.methodCount)
+    | some bs => (st, rMeta bs)
     | none => bad
+  | ["SECT", a, b] =>
+    match a.toNat?, b.toNat? with
+    | some a, some b =>
+      if a ≤ b && b ≤ st.src.length then
+        let bs := sectionOf st.src a b
+        (st, rMeta bs ++ " uuid=" ++ hexOfBytes (mappingUuid bs) ++ " rc=" ++ toString (records bs).length)
+      else bad
+    | _, _ => bad
+  | ["FULL", c, m] =>
+    match unhex c, unhex m with
+    | some c, some m => (st, hx (fullMethod c m))
+    | _, _ => bad
   | ["WRITE"] => (st, hx st.written.get)
   | ["CLS", c] =>
     match unhex c with
